@@ -55,7 +55,8 @@ class StepWorld:
         self.alt0 = r('alt0', -1e4, 1e5)
         sgn = -1 if mirror else 1
         self.wx, self.wz = r('wind_x', -300, 300), r('wind_z', -300, 300)
-        calc.look_angle = 0.0
+        self.look = r('look_angle', -1.5, 1.5)          # the sight line's inclination: no part of the equations of motion, nor of the limits
+        calc.look_angle = self.look
         calc.twist = calc.length = calc.diameter = 0
         calc.weight = 100.0
         calc.barrel_elevation, calc.barrel_azimuth = self.elev, (-self.azim if mirror else self.azim)
